@@ -210,7 +210,7 @@ Qed.
 
 Lemma sinv_keeps s s' : keeps s s' -> SInv s -> SInv s'.
 Proof.
-  intros (A1 & A2 & A3 & A4 & A5 & A6 & A7 & A8 & A9) (I1 & I2 & I3). unfold SInv.
+  intros (A1 & A2 & A3 & A4 & A5 & A6 & A7 & A9) (I1 & I2 & I3). unfold SInv.
   rewrite A1, A2, A5. split; [exact I1|]. split.
   - destruct A9 as [[-> ->]|Au]; [exact I2|].
     pose proof (sorted_unroll_nb _ _ I2) as H. rewrite <- Au in H. exact H.
